@@ -105,9 +105,13 @@ def main(argv=None):
         "violations": len(new),
     }
     ok, err = ev.write(pid, doc)
-    if not ok:
+    if not ok and not new:
         print("INCONCLUSIVE property=%s evidence does not validate: %s" % (pid, err))
         return 2
+    if not ok:
+        # the run observed too little to describe its coverage in the evidence format (e.g. nothing could be decoded), but
+        # it did observe violations: those are reported; the verdict does not depend on the evidence file
+        print("note: evidence of this run does not validate (%s); reporting the violations it observed" % err, file=sys.stderr)
 
     for mech, vs in sorted(seen_known.items()):
         print("KNOWN-FINDING: property=%s %s (%d witnesses; e.g. %s)" % (
